@@ -1,6 +1,7 @@
 import CoapVerif.Lemmas.Block
 import CoapVerif.Lemmas.BlockRecv
 import CoapVerif.Lemmas.BlockCrcv
+import CoapVerif.Lemmas.BlockXmit
 /-
 C09 — block-wise transfer: the sender's body arrives intact, once, or the transfer fails explicitly.
 
@@ -271,6 +272,127 @@ example :
     ((crcvStep true 4 0 (crcvStep true 4 0 (some {}) { blk := some (5, 1, 0), payload := slice body 0 5 }).1
       { blk := some (0, 1, 0), payload := slice body 0 0, size2 := some 100 }).1.map fun s => (s.recv, s.body.map (·.length))) =
       some ([(0, 0), (5, 5)], some 16) := by decide
+
+
+/-! ## Layer B, sender side (lg_xmit) and the release callback
+
+M = `xmitB2Step` (coap_handle_request_send_block), `xmitB1Step` (coap_handle_response_send_block), `adlRel` (exit paths
+of coap_add_data_large_internal), `xlStep` (the session's lg_xmit list) in Model/BlockXmit.lean; T2 ops `xmit2`, `xmit1`. -/
+
+/-- Server, Block2: for EVERY lg_xmit and EVERY request (any NUM, any SZX, in any order, repeated, beyond the end): a
+block message the server builds carries exactly the body's slice for the NUM and SZX of the request, the SZX is the
+lg_xmit's (a changed size is refused with 4.00), the More bit is the one RFC 7959 prescribes, payload marker and
+payload fit the room the PDU has (otherwise 5.00) — and the lg_xmit keeps its body and block size whatever happens.
+This discharges the hypothesis `Genuine2` of the client's receive automaton for a libcoap server. -/
+theorem server_block2_genuine (x : LgXmit) (room num szx : Nat) :
+    (∀ st' n m s p, xmitB2Step (some x) room num szx = (st', B2Out.block n m s p) →
+      n = num ∧ s = szx ∧ s = x.blkSize ∧ n < nBlocks x.data.length s ∧ p = slice x.data s n ∧
+      m = more x.data.length s n ∧ 1 + p.length ≤ room ∧ p.length ≤ chunkSize s) ∧
+    (∃ x', (xmitB2Step (some x) room num szx).1 = some x' ∧ x'.data = x.data ∧ x'.blkSize = x.blkSize) := by
+  refine ⟨?_, xmitB2Step_state x room num szx⟩
+  intro st' n m s p h
+  obtain ⟨a, b, c, d, e, f, g, _⟩ := xmitB2Step_spec x room num szx st' n m s p h
+  refine ⟨a, b, c, d, e, f, g, ?_⟩
+  rw [e, slice_length]
+  exact Nat.min_le_left _ _
+
+/-- Client, Block1: for EVERY lg_xmit and EVERY response matched to it (2.31 in order, duplicated, stale, renegotiating
+the size, or any other code): a block message the client builds carries exactly the body's slice for the NUM and SZX
+in its Block1 option, that SZX is the one of the response, and marker + payload fit the room the PDU has. -/
+theorem client_block1_slices (x : LgXmit) (room : Nat) (ok : Bool) (blk : Option (Nat × Nat)) (st' : Option LgXmit)
+    (n m s : Nat) (p : Bytes) (h : xmitB1Step x room ok blk = (st', B1Out.sendNext n m s p)) :
+    n < nBlocks x.data.length s ∧ p = slice x.data s n ∧ 1 + p.length ≤ room ∧ p.length ≤ chunkSize s ∧
+    ∃ num0, blk = some (num0, s) := by
+  obtain ⟨a, b, c, d, _⟩ := xmitB1Step_spec x room ok blk st' n m s p h
+  refine ⟨a, b, c, ?_, d⟩
+  rw [b, slice_length]
+  exact Nat.min_le_left _ _
+
+/-- … and, along EVERY sequence of responses none of which asks for a LARGER block size than the lg_xmit currently
+uses (RFC 7959 §2.5 allows a server only to reduce it; a libcoap server never increases it), the lg_xmit stays well
+formed (`XmitInv`: offset aligned to the block size), early size renegotiation included, and every block message has
+the right More bit and follows the block the response acknowledged: the hypothesis `Genuine` of the server's receive
+automaton (`never_wrong_body_partial`) is discharged for a libcoap client, except for its SZX clause.
+FULL statement (not provable, see the witness below): the same without `hblk`.  What is missing: when a response asks
+for a larger size the C code ignores the request for `lg_xmit->blk_size` / `offset` but keeps `block.szx` of the
+response for the option and for slicing the payload, so M bit and position are computed in two different units. -/
+theorem client_block1_genuine_partial (x : LgXmit) (room : Nat) (ok : Bool) (blk : Option (Nat × Nat))
+    (hinv : XmitInv x) (hlen : x.data.length < 2 ^ 32) (hblk : ∀ num szx, blk = some (num, szx) → szx ≤ x.blkSize) :
+    (∀ x', (xmitB1Step x room ok blk).1 = some x' → XmitInv x' ∧ x'.data = x.data ∧ x'.blkSize ≤ x.blkSize) ∧
+    (∀ st' n m s p, xmitB1Step x room ok blk = (st', B1Out.sendNext n m s p) →
+      p = slice x.data s n ∧ n < nBlocks x.data.length s ∧ m = more x.data.length s n ∧
+      ∃ x', st' = some x' ∧ x'.blkSize = s ∧ x'.lastBlock = some (n - 1) ∧ 1 ≤ n ∧ x'.offset = n * 2 ^ (s + 4)) := by
+  refine ⟨fun x' h => xmitB1Step_inv x room ok blk x' hinv hlen hblk h, ?_⟩
+  intro st' n m s p h
+  obtain ⟨a, b, _, ⟨num0, d⟩, e⟩ := xmitB1Step_spec x room ok blk st' n m s p h
+  obtain ⟨e1, x', e2, _, e4, e5, e6, e7⟩ := e hinv (hblk num0 s d)
+  exact ⟨b, a, e1, x', e2, e4, e5, e6, e7⟩
+
+set_option maxRecDepth 100000 in
+/-- non-vacuity + early size renegotiation: 400-byte body sent in 64-byte blocks; the server's 2.31 for block 0 asks
+for 32-byte blocks (and names block 1 of that size as received): the client goes on with block 2 of 32 bytes -/
+example :
+    let body : Bytes := (List.range 400).map (fun i => UInt8.ofNat (i % 251))
+    let x : LgXmit := { data := body, blkSize := 2 }
+    XmitInv x ∧ (xmitB1Step x 1000 true (some (0, 1))).2 = B1Out.sendNext 2 1 1 (slice body 1 2) ∧
+    ((xmitB1Step x 1000 true (some (0, 1))).1.map fun y => (y.blkSize, y.offset, y.lastBlock)) = some (1, 64, some 1) := by
+  decide
+
+set_option maxRecDepth 100000 in
+/-- WITNESS for the excluded case: lg_xmit at 64-byte blocks, block 0 sent; a 2.31 asking for 256-byte blocks makes the
+client send "block 1 of 256 bytes" (bytes 256..399, bytes 64..255 are skipped) with M = 1 although it is the last one -/
+example :
+    let body : Bytes := (List.range 400).map (fun i => UInt8.ofNat (i % 251))
+    (xmitB1Step { data := body, blkSize := 2 } 1000 true (some (0, 4))).2 = B1Out.sendNext 1 1 4 (slice body 4 1) ∧
+    more 400 4 1 = 0 := by decide
+
+set_option maxRecDepth 100000 in
+/-- non-vacuity for the server side: block 2 of a 100-byte body at 32-byte blocks; a changed size is refused -/
+example :
+    let body : Bytes := (List.range 100).map (fun i => UInt8.ofNat i)
+    (xmitB2Step (some { data := body, blkSize := 1 }) 1000 2 1).2 = B2Out.block 2 1 1 (slice body 1 2) ∧
+    (xmitB2Step (some { data := body, blkSize := 1 }) 1000 2 0).2 = B2Out.err400 ∧
+    (xmitB2Step (some { data := body, blkSize := 1 }) 1000 4 1).2 = B2Out.err500 ∧
+    (xmitB2Step (some { data := body, blkSize := 1 }) 20 2 1).2 = B2Out.err500 := by decide
+
+/-- The release callback, part 1 — coap_add_data_large_internal: for ALL inputs, on every exit path either the callback
+has been called exactly once and no lg_xmit holds it, or it has not been called and exactly one lg_xmit that holds it
+has been linked into the session — the latter exactly when the result is a multi-block transfer. -/
+theorem adl_release_once (maxSize tokLen optBytes lastOpt : Nat) (blk : Option Nat) (maxBlk length rtagLen : Nat) :
+    let r := adlRel maxSize tokLen optBytes lastOpt blk maxBlk length rtagLen
+    r.1 + (if r.2 then 1 else 0) = 1 ∧
+    (r.2 = true ↔ ∃ a, addDataLarge maxSize tokLen optBytes lastOpt blk maxBlk length rtagLen = some a ∧ a.lgXmit = true) :=
+  adlRel_spec maxSize tokLen optBytes lastOpt blk maxBlk length rtagLen
+
+/-- The release callback, part 2 — the session's lg_xmit list: after ANY sequence of creations, deletions (timeout,
+transfer finished, failed, replaced — each through LL_DELETE + coap_block_delete_lg_xmit on a list member) and session
+frees, no callback has run twice and none has run for an lg_xmit that is still linked; every lg_xmit ever created is
+still linked or has had its callback run; once the session is freed every one of them has had it run exactly once. -/
+theorem release_exactly_once (evs : List XlEvent) :
+    let s := evs.foldl xlStep ([], [])
+    (s.1 ++ s.2).Nodup ∧
+    (∀ id, XlEvent.create id ∈ evs → id ∈ s.1 ∨ id ∈ s.2) ∧
+    (let f := (evs ++ [XlEvent.sessionFree]).foldl xlStep ([], [])
+     f.1 = [] ∧ f.2.Nodup ∧ ∀ id, XlEvent.create id ∈ evs → id ∈ f.2) := by
+  intro s
+  have hnil : XlInv ([], []) := by unfold XlInv; exact List.nodup_nil
+  refine ⟨xlFold_inv evs _ hnil, fun id h => xlFold_created evs _ id h, ?_⟩
+  intro f
+  have hf : f = xlStep s XlEvent.sessionFree := by
+    show (evs ++ [XlEvent.sessionFree]).foldl xlStep ([], []) = _
+    rw [List.foldl_append]; rfl
+  have hs := xlFold_inv evs _ hnil
+  rw [hf]
+  refine ⟨rfl, hs, ?_⟩
+  intro id h
+  rcases xlFold_created evs ([], []) id h with h | h
+  · exact List.mem_append_left _ h
+  · exact List.mem_append_right _ h
+
+example : [XlEvent.create 1, .create 2, .delete 1, .delete 1, .create 3, .sessionFree].foldl xlStep ([], []) =
+    ([], [3, 2, 1]) := by decide
+example : adlRel 1152 4 2 11 none 0 5000 1 = (0, true) ∧ adlRel 1152 4 2 11 none 0 50 1 = (1, false) ∧
+    adlRel 60 4 2 11 none 0 5000 1 = (1, false) := by decide
 
 /-! non-vacuity: concrete instances of the hypotheses -/
 example : setupBlockB 64 6 3 6 5000 = some { num := 96, m := 1, szx := 1, aszx := 1, chunk := 32 } := by decide
